@@ -146,7 +146,9 @@ def gen_params(name="polymer", outpath=Path("polymer.itp"), inpath=[],
     for loglevel, entries in meta_molecule.molecule.log_entries.items():
         for entry, fmt_args in entries.items():
             for fmt_arg in fmt_args:
-                fmt_arg = {str(k): meta_molecule.molecule.nodes[v] for k, v in fmt_arg.items()}
+                # atoms that a link has removed in the meantime cannot be referred to
+                fmt_arg = {str(k): meta_molecule.molecule.nodes[v] for k, v in fmt_arg.items()
+                           if v in meta_molecule.molecule.nodes}
                 LOGGER.log(loglevel, entry, **fmt_arg, type='model')
 
 # ducktape for renaming the itp tool
